@@ -33,7 +33,7 @@ impl<P: Property> FuzzSession<P> {
         let id = p.id();
         let known = if strict { Vec::new() } else { load_known_findings(root).into_iter().filter(|k| k.property == id).collect() };
         let strategy = p.strategy(Tier::Thorough);
-        let dir = format!("{}/evidence/fuzz", root);
+        let dir = std::env::var("VERIF_FUZZ_STATS").unwrap_or_else(|_| format!("{}/harness/fuzz/run/{}/stats", root, id));
         let _ = std::fs::create_dir_all(&dir);
         let stats_path = format!("{}/{}.{}.json", dir, id, std::process::id());
         FuzzSession { p, strategy, known, stats: Stats::default(), root: root.to_string(), iterations: 0, undecodable: 0, harness_panics: 0, stats_path }
@@ -80,7 +80,7 @@ impl<P: Property> FuzzSession<P> {
             *self.stats.known_hits.entry(h).or_insert(0) += 1;
         }
         self.stats.absorb(&report);
-        if self.iterations % 2000 == 0 {
+        if self.iterations % 500 == 0 {
             self.flush_stats();
         }
         if unknown.is_empty() {
@@ -139,4 +139,179 @@ pub fn session(id: &str, root: &str, strict: bool) -> Option<Box<dyn FuzzOne>> {
         "C19" => Box::new(FuzzSession::new(clientsim::C19, root, strict)),
         _ => return None,
     })
+}
+
+
+// ------------------------------------------------------------------------------------------------
+// campaign driver (called by the runner in the thorough tier)
+// ------------------------------------------------------------------------------------------------
+
+use crate::runner::FuzzOutcome;
+
+fn splitmix(x: &mut u64) -> u64 {
+    *x = x.wrapping_add(0x9E37_79B9_7F4A_7C15);
+    let mut z = *x;
+    z = (z ^ (z >> 30)).wrapping_mul(0xBF58_476D_1CE4_E5B9);
+    z = (z ^ (z >> 27)).wrapping_mul(0x94D0_49BB_1331_11EB);
+    z ^ (z >> 31)
+}
+
+/// Runs `workers` libFuzzer jobs of the instrumented binary for `secs` seconds on property `id`.
+pub fn run_campaign(fuzz_bin: &str, root: &str, id: &str, seed: u64, secs: u64, workers: usize, extra_corpus: &[Vec<u8>], max_len: usize, strict: bool) -> Result<FuzzOutcome, String> {
+    let run_dir = format!("{}/harness/fuzz/run/{}", root, id);
+    let _ = std::fs::remove_dir_all(&run_dir);
+    let corpus = format!("{}/corpus", run_dir);
+    let stats = format!("{}/stats", run_dir);
+    let artifacts = format!("{}/artifacts", run_dir);
+    for d in [&corpus, &stats, &artifacts] {
+        std::fs::create_dir_all(d).map_err(|e| format!("cannot create {}: {}", d, e))?;
+    }
+    // starting corpus: pseudo-random inputs of several lengths (a pure function of the seed) + the property's own seeds
+    let mut x = seed ^ crate::runner::hash_str(id);
+    let mut n = 0;
+    for len in [8usize, 24, 70, 70, 150, 150, 300, 300, 600, 600, 1200, 2400] {
+        for _ in 0..4 {
+            let mut v = Vec::with_capacity(len);
+            while v.len() < len.min(max_len) {
+                v.extend_from_slice(&splitmix(&mut x).to_le_bytes());
+            }
+            v.truncate(len.min(max_len));
+            let _ = std::fs::write(format!("{}/rnd-{:03}", corpus, n), &v);
+            n += 1;
+        }
+    }
+    for (i, v) in extra_corpus.iter().enumerate() {
+        let _ = std::fs::write(format!("{}/seed-{:04}", corpus, i), v);
+    }
+    let started = std::time::Instant::now();
+    let status = std::process::Command::new(fuzz_bin)
+        .current_dir(&run_dir)
+        .arg(&corpus)
+        .arg(format!("-max_total_time={}", secs))
+        .arg("-len_control=0")
+        .arg(format!("-max_len={}", max_len))
+        .arg("-timeout=120")
+        .arg("-rss_limit_mb=6000")
+        .arg(format!("-seed={}", (seed % 0xffff_fff0) + 1))
+        .arg(format!("-workers={}", workers))
+        .arg(format!("-jobs={}", workers))
+        .arg("-print_final_stats=1")
+        .arg(format!("-artifact_prefix={}/", artifacts))
+        .env("VERIF_FUZZ_PROP", id)
+        .env("VERIF_ROOT", root)
+        .env("VERIF_FUZZ_STATS", &stats)
+        .env("VERIF_STRICT", if strict { "1" } else { "0" })
+        .stdout(std::process::Stdio::null())
+        .stderr(std::process::Stdio::null())
+        .status()
+        .map_err(|e| format!("cannot start {}: {}", fuzz_bin, e))?;
+    let wall = started.elapsed().as_secs_f64();
+    // merge the per-process statistics
+    let mut iterations = 0u64;
+    let mut evaluations = 0u64;
+    let mut nontrivial = 0u64;
+    let mut distinct = 0u64;
+    let mut undecodable = 0u64;
+    let mut harness_panics = 0u64;
+    let mut inconclusive = 0u64;
+    let mut labels: std::collections::BTreeMap<String, u64> = Default::default();
+    let mut known_hits: std::collections::BTreeMap<String, u64> = Default::default();
+    let mut sample = serde_json::Value::Null;
+    if let Ok(rd) = std::fs::read_dir(&stats) {
+        for e in rd.flatten() {
+            if let Ok(t) = std::fs::read_to_string(e.path()) {
+                if let Ok(v) = serde_json::from_str::<serde_json::Value>(&t) {
+                    iterations += v["iterations"].as_u64().unwrap_or(0);
+                    evaluations += v["evaluations"].as_u64().unwrap_or(0);
+                    nontrivial += v["nontrivial_total"].as_u64().unwrap_or(0);
+                    distinct += v["distinct_nontrivial"].as_u64().unwrap_or(0);
+                    undecodable += v["undecodable_inputs"].as_u64().unwrap_or(0);
+                    harness_panics += v["harness_panics"].as_u64().unwrap_or(0);
+                    inconclusive += v["inconclusive_cases"].as_u64().unwrap_or(0);
+                    if let Some(m) = v["labels"].as_object() {
+                        for (k, c) in m {
+                            *labels.entry(k.clone()).or_insert(0) += c.as_u64().unwrap_or(0);
+                        }
+                    }
+                    if let Some(m) = v["known_finding_hits"].as_object() {
+                        for (k, c) in m {
+                            *known_hits.entry(k.clone()).or_insert(0) += c.as_u64().unwrap_or(0);
+                        }
+                    }
+                    if sample.is_null() && !v["sample"].is_null() {
+                        sample = v["sample"].clone();
+                    }
+                }
+            }
+        }
+    }
+    // worker logs: violations, final coverage, non-verdict crashes
+    let mut replays = Vec::new();
+    let mut harness_notes = Vec::new();
+    let mut cov_max = 0u64;
+    let mut ft_max = 0u64;
+    let mut corpus_units = 0u64;
+    if let Ok(rd) = std::fs::read_dir(&run_dir) {
+        for e in rd.flatten() {
+            let name = e.file_name().to_string_lossy().to_string();
+            if !(name.starts_with("fuzz-") && name.ends_with(".log")) {
+                continue;
+            }
+            let text = std::fs::read_to_string(e.path()).unwrap_or_default();
+            let mut had_violation = false;
+            for line in text.lines() {
+                if let Some(rest) = line.strip_prefix("VIOLATION property=") {
+                    if let Some(pos) = rest.find(" replay=") {
+                        replays.push(rest[pos + 8..].trim().to_string());
+                        had_violation = true;
+                    }
+                }
+                if line.starts_with('#') && line.contains(" cov: ") {
+                    let mut it = line.split_whitespace();
+                    while let Some(tok) = it.next() {
+                        if tok == "cov:" {
+                            cov_max = cov_max.max(it.next().and_then(|v| v.parse().ok()).unwrap_or(0));
+                        } else if tok == "ft:" {
+                            ft_max = ft_max.max(it.next().and_then(|v| v.parse().ok()).unwrap_or(0));
+                        } else if tok == "corp:" {
+                            corpus_units = corpus_units.max(it.next().and_then(|v| v.split('/').next().and_then(|x| x.parse().ok())).unwrap_or(0));
+                        }
+                    }
+                }
+                if line.contains("HARNESS-ERROR") {
+                    harness_notes.push(format!("{}: {}", name, line.chars().take(200).collect::<String>()));
+                }
+            }
+            if !had_violation && (text.contains("ERROR: libFuzzer: timeout") || text.contains("ERROR: libFuzzer: out-of-memory") || text.contains("ERROR: libFuzzer: deadly signal")) {
+                let what = if text.contains("libFuzzer: timeout") { "timeout" } else if text.contains("out-of-memory") { "out of memory" } else { "crash without a verdict" };
+                harness_notes.push(format!("{}: libFuzzer worker ended with {} (not a verdict)", name, what));
+            }
+        }
+    }
+    replays.sort();
+    replays.dedup();
+    let summary = json!({
+        "engine": "libFuzzer (cargo-fuzz), in-process, byte-driven structured generator, same oracle as the proptest campaign",
+        "workers": workers,
+        "budget_s": secs,
+        "wall_s": wall,
+        "exit_status": status.code(),
+        "executions": iterations,
+        "evaluations": evaluations,
+        "nontrivial_total": nontrivial,
+        "distinct_nontrivial_summed_over_workers": distinct,
+        "undecodable_inputs": undecodable,
+        "harness_panics": harness_panics,
+        "inconclusive_cases": inconclusive,
+        "edge_coverage_max": cov_max,
+        "features_max": ft_max,
+        "corpus_units_max": corpus_units,
+        "starting_corpus": {"pseudo_random": n, "property_seeds": extra_corpus.len()},
+        "known_finding_hits": known_hits,
+        "labels": labels,
+        "sample": sample,
+        "violating_replays": replays,
+        "non_verdict_endings": harness_notes,
+    });
+    Ok(FuzzOutcome { replays, summary, harness_notes })
 }
